@@ -109,8 +109,7 @@ def find_def(relpath, qualname):
         nxt = None
         for d in _children_defs(cur):
             if d.name == p:
-                nxt = d
-                break
+                nxt = d   # the last definition wins (typing.overload stubs come first)
         if nxt is None:
             raise KeyError("%s: %s has no definition %s" % (relpath, qualname, p))
         cur = nxt
@@ -216,9 +215,12 @@ def find_method(relpath, clsname, meth, after=None):
             if (rp, cdef.name) == after:
                 started = True
             continue
+        hit = None
         for d in cdef.body:
             if isinstance(d, (ast.FunctionDef, ast.AsyncFunctionDef)) and d.name == meth:
-                return rp, cdef.name + "." + meth, d
+                hit = d
+        if hit is not None:
+            return rp, cdef.name + "." + meth, hit
     return None
 
 
